@@ -8,6 +8,28 @@ use std::cell::RefCell;
 
 pub struct C17;
 
+/// inf-norm as the stopping test sees it: NaN when every component is NaN, the largest modulus when none is;
+/// `None` for a vector with some NaN components only (the library's comparison-based norm is order dependent there,
+/// the criterion is not judged)
+fn norm_inf_nan(v: impl Iterator<Item = f64>) -> Option<f64> {
+    let (mut m, mut nans, mut n) = (0.0f64, 0usize, 0usize);
+    for t in v {
+        n += 1;
+        if t.is_nan() {
+            nans += 1;
+        } else {
+            m = m.max(t);
+        }
+    }
+    if nans == 0 {
+        Some(m)
+    } else if nans == n {
+        Some(f64::NAN)
+    } else {
+        None
+    }
+}
+
 fn bits_eq(a: f64, b: f64) -> bool {
     a.to_bits() == b.to_bits()
 }
@@ -114,7 +136,8 @@ fn scalar_real(case: &mut Case, success: bool) -> Result<(), String> {
         log.borrow_mut().push((x, v));
         v
     };
-    let mut nw = Newton::<f64>::new(guess);
+    // the guess is configured through the constructor or, one time in two, afterwards through guess()
+    let mut nw = if case.src.coin() { Newton::<f64>::new(guess) } else { let mut t = Newton::<f64>::new(guess + 1.5); t.guess(guess); t };
     nw.tolerance(cfg.tol);
     nw.delta(cfg.delta);
     nw.iterations(cfg.max_iter);
@@ -283,7 +306,8 @@ fn scalar_cmplx(case: &mut Case, success: bool) -> Result<(), String> {
         log.borrow_mut().push(z);
         func(z)
     };
-    let mut nw = Newton::<Cmplx>::new(guess);
+    // the guess is configured through the constructor or, one time in two, afterwards through guess()
+    let mut nw = if case.src.coin() { Newton::<Cmplx>::new(guess) } else { let mut t = Newton::<Cmplx>::new(guess + Cmplx::new(1.5, -0.5)); t.guess(guess); t };
     nw.tolerance(cfg.tol);
     nw.delta(cfg.delta);
     nw.iterations(cfg.max_iter);
@@ -461,15 +485,20 @@ fn system_real(case: &mut Case, success: bool) -> Result<(), String> {
     let gmax = sys.g(&sys.r).iter().fold(1.0f64, |a, b| a.max(b.abs()));
     cfg.tol = cfg.tol.max(200.0 * f64::EPSILON * sys.scale * (gmax + 1.0));
     let supplied = case.src.coin();
-    let guess: Vec<f64> = if success { sys.r.iter().map(|r| r + case.src.f64_in(-0.1, 0.1)).collect() } else { (0..n).map(|_| case.src.f64_in(-2.0, 2.0)).collect() };
-    let bad_kind = if success { 0 } else { 1 + case.src.below(4) };
+    let mut guess: Vec<f64> = if success { sys.r.iter().map(|r| r + case.src.f64_in(-0.1, 0.1)).collect() } else { (0..n).map(|_| case.src.f64_in(-2.0, 2.0)).collect() };
+    // kind 5: x_k^2 + 1 with its exact Jacobian diag(2 x_k) from a guess with components +-1: the first step lands
+    // exactly on 0, where the Jacobian vanishes and the linear solve produces NaN - a failure, never a success
+    let bad_kind = if success { 0 } else { 1 + case.src.below(5) };
+    if bad_kind == 5 {
+        guess = (0..n).map(|_| if case.src.coin() { 1.0 } else { -1.0 }).collect();
+    }
     let func_evals: RefCell<Vec<Vec<f64>>> = RefCell::new(Vec::new());
     let jac_evals = RefCell::new(0usize);
     let func = |x: Vec64| -> Vec64 {
         func_evals.borrow_mut().push(x.vec.clone());
         let v: Vec<f64> = match bad_kind {
             0 | 4 => sys.f(&x.vec),
-            1 => x.vec.iter().map(|t| t * t + 1.0).collect(),          // root-free
+            1 | 5 => x.vec.iter().map(|t| t * t + 1.0).collect(),      // root-free
             2 => vec![1.0; n],                                          // constant: singular Jacobian
             _ => x.vec.iter().map(|t| t.abs() + 0.5).collect(),         // non-differentiable, root-free
         };
@@ -477,7 +506,8 @@ fn system_real(case: &mut Case, success: bool) -> Result<(), String> {
     };
     let jac = |x: Vec64| -> Mat64 {
         *jac_evals.borrow_mut() += 1;
-        let j = if bad_kind == 0 || bad_kind == 4 { sys.jac(&x.vec) } else { (0..n).map(|i| (0..n).map(|k| if i == k { 2.0 * x.vec[i] + 0.1 } else { 0.0 }).collect()).collect() };
+        let off = if bad_kind == 5 { 0.0 } else { 0.1 };
+        let j = if bad_kind == 0 || bad_kind == 4 { sys.jac(&x.vec) } else { (0..n).map(|i| (0..n).map(|k| if i == k { 2.0 * x.vec[i] + off } else { 0.0 }).collect()).collect() };
         let mut m = Mat64::new(n, n, 0.0);
         for i in 0..n {
             for k in 0..n {
@@ -486,7 +516,7 @@ fn system_real(case: &mut Case, success: bool) -> Result<(), String> {
         }
         m
     };
-    let mut nw = Newton::<Vec64>::new(Vector::create(guess.clone()));
+    let mut nw = if case.src.coin() { Newton::<Vec64>::new(Vector::create(guess.clone())) } else { let mut t = Newton::<Vec64>::new(Vector::create(vec![0.25; n])); t.guess(Vector::create(guess.clone())); t };
     nw.tolerance(cfg.tol);
     nw.delta(cfg.delta);
     nw.iterations(cfg.max_iter);
@@ -497,6 +527,11 @@ fn system_real(case: &mut Case, success: bool) -> Result<(), String> {
         Ok(r) => r,
         Err(e) => return Err(format!("Newton<Vec64> solve panicked: {}", e)),
     };
+    if let Ok(v) = &res {
+        if v.vec.iter().any(|t| !t.is_finite()) {
+            return Err(format!("Ok({:?}): a non-finite vector reported as a root", v.vec));
+        }
+    }
     let evals = func_evals.borrow().clone();
     let nj = *jac_evals.borrow();
     let bound = if supplied { cfg.max_iter } else { (n + 2) * cfg.max_iter };
@@ -531,15 +566,20 @@ fn system_real(case: &mut Case, success: bool) -> Result<(), String> {
         if !evals[0].iter().zip(&guess).all(|(p, q)| bits_eq(*p, *q)) {
             return Err("the first evaluation is not at the configured guess".into());
         }
-        let resid = |x: &Vec<f64>| -> f64 {
+        let resid = |x: &Vec<f64>| -> Option<f64> {
             let v: Vec<f64> = match bad_kind {
                 0 | 4 => sys.f(x),
-                1 => x.iter().map(|t| t * t + 1.0).collect(),
+                1 | 5 => x.iter().map(|t| t * t + 1.0).collect(),
                 2 => vec![1.0; n],
                 _ => x.iter().map(|t| t.abs() + 0.5).collect(),
             };
-            v.iter().map(|t| t.abs()).fold(0.0, f64::max)
+            norm_inf_nan(v.iter().map(|t| t.abs()))
         };
+        if (0..iters).any(|k| resid(&evals[k * per]).is_none()) {
+            case.class("partly-NaN residual: criterion not judged");
+            return if success { Err("NaN residual components on an in-basin run".into()) } else { Ok(()) };
+        }
+        let resid = |x: &Vec<f64>| resid(x).unwrap();
         for k in 0..iters - 1 {
             let rk = resid(&evals[k * per]);
             if rk <= cfg.tol {
@@ -620,12 +660,16 @@ fn system_cmplx(case: &mut Case, success: bool) -> Result<(), String> {
             .collect()
     };
     let gr = g(&rt);
-    let bad = !success && case.src.coin();
+    // termination kinds: 0 arbitrary budget on the regular system, 1 exp (root-free), 2 z_k^2 + 1 with its exact Jacobian
+    // from a real guess with components +-1 (the first step lands exactly on 0: singular Jacobian, NaN iterate)
+    let bad_kind: u32 = if success { 0 } else { case.src.below(3) };
+    let bad = bad_kind != 0;
+    let guess: Vec<Cmplx> = if bad_kind == 2 { (0..n).map(|_| Cmplx::new(if case.src.coin() { 1.0 } else { -1.0 }, 0.0)).collect() } else { guess };
     let flog: RefCell<Vec<(Vec<Cmplx>, f64)>> = RefCell::new(Vec::new());
     let nj = RefCell::new(0usize);
     let func = |z: Vector<Cmplx>| -> Vector<Cmplx> {
-        let v: Vec<Cmplx> = if bad { z.vec.iter().map(|t| t.exp()).collect() /* root-free */ } else { g(&z.vec).iter().zip(&gr).map(|(p, q)| *p - *q).collect() };
-        flog.borrow_mut().push((z.vec.clone(), v.iter().map(|t| t.abs()).fold(0.0, f64::max)));
+        let v: Vec<Cmplx> = if bad_kind == 1 { z.vec.iter().map(|t| t.exp()).collect() /* root-free */ } else if bad_kind == 2 { z.vec.iter().map(|t| *t * *t + Cmplx::new(1.0, 0.0)).collect() } else { g(&z.vec).iter().zip(&gr).map(|(p, q)| *p - *q).collect() };
+        flog.borrow_mut().push((z.vec.clone(), norm_inf_nan(v.iter().map(|t| t.abs())).unwrap_or(f64::NEG_INFINITY)));
         Vector::create(v)
     };
     let jac = |z: Vector<Cmplx>| -> Matrix<Cmplx> {
@@ -633,22 +677,27 @@ fn system_cmplx(case: &mut Case, success: bool) -> Result<(), String> {
         let mut m = Matrix::<Cmplx>::new(n, n, Cmplx::new(0.0, 0.0));
         for i in 0..n {
             for j in 0..n {
-                m[(i, j)] = if bad { if i == j { z.vec[i].exp() } else { Cmplx::new(0.0, 0.0) } } else { Cmplx::new(sys.a[i][j], 0.0) + if i == j { z.vec[i] * (2.0 * eps) } else { Cmplx::new(0.0, 0.0) } };
+                m[(i, j)] = if bad { if i != j { Cmplx::new(0.0, 0.0) } else if bad_kind == 1 { z.vec[i].exp() } else { z.vec[i] * 2.0 } } else { Cmplx::new(sys.a[i][j], 0.0) + if i == j { z.vec[i] * (2.0 * eps) } else { Cmplx::new(0.0, 0.0) } };
             }
         }
         m
     };
-    let mut nw = Newton::<Vector<Cmplx>>::new(Vector::create(guess.clone()));
+    let mut nw = if case.src.coin() { Newton::<Vector<Cmplx>>::new(Vector::create(guess.clone())) } else { let mut t = Newton::<Vector<Cmplx>>::new(Vector::create(vec![Cmplx::new(0.25, 0.0); n])); t.guess(Vector::create(guess.clone())); t };
     nw.tolerance(cfg.tol);
     nw.delta(cfg.delta);
     nw.iterations(cfg.max_iter);
-    case.class(format!("system cmplx n={} {} {}", n, if supplied { "supplied-jacobian" } else { "finite-difference" }, if success { "success" } else if bad { "termination root-free" } else { "termination arbitrary-budget" }));
+    case.class(format!("system cmplx n={} {} {}", n, if supplied { "supplied-jacobian" } else { "finite-difference" }, if success { "success" } else if bad_kind == 1 { "termination root-free" } else if bad_kind == 2 { "termination singular-landing" } else { "termination arbitrary-budget" }));
     case.describe(|| format!("Newton<Vector<Cmplx>> n={} supplied={} success={} bad={} A={:?} eps={} root={:?} guess={:?} tol={:e} delta={:e} max_iter={}", n, supplied, success, bad, sys.a, eps, rt, guess, cfg.tol, cfg.delta, cfg.max_iter));
     let run = |nw: &Newton<Vector<Cmplx>>| if supplied { nw.solve_jacobian(&func, &jac) } else { nw.solve(&func) };
     let res = match catch(|| run(&nw)) {
         Ok(r) => r,
         Err(e) => return Err(format!("Newton<Vector<Cmplx>> solve panicked: {}", e)),
     };
+    if let Ok(v) = &res {
+        if v.vec.iter().any(|t| !(t.real.is_finite() && t.imag.is_finite())) {
+            return Err(format!("Ok({:?}): a non-finite vector reported as a root", v.vec));
+        }
+    }
     let evals = flog.borrow().clone();
     let (cf, cj) = (evals.len(), *nj.borrow());
     let bound = if supplied { cfg.max_iter } else { (n + 2) * cfg.max_iter };
@@ -679,6 +728,11 @@ fn system_cmplx(case: &mut Case, success: bool) -> Result<(), String> {
             }
             if !evals[0].0.iter().zip(&guess).all(|(p, q)| cb(*p, *q)) {
                 return Err("the first evaluation is not at the configured guess".into());
+            }
+            if (0..iters).any(|k| evals[k * per].1 == f64::NEG_INFINITY) {
+                // partly-NaN residual: the library's comparison-based norm is order dependent there
+                case.class("partly-NaN residual: criterion not judged");
+                return if success { Err("NaN residual components on an in-basin run".into()) } else { Ok(()) };
             }
             for k in 0..iters - 1 {
                 if evals[k * per].1 <= cfg.tol {
